@@ -194,6 +194,14 @@ pub fn note_seen(ctx: Ctx, addr: usize) {
 fn make_value<T: PtrT>(ctx: Ctx, v: V) -> T {
     match v {
         V::New => T::fresh(next_payload()),
+        V::NewArmed => {
+            let t = T::fresh(next_payload());
+            let a = t.addr();
+            if a != 0 && arena::arm_panic_at(a) {
+                w(|w| w.armed += 1);
+            }
+            t
+        }
         V::Null => T::null().unwrap_or_else(|| T::fresh(next_payload())),
         V::H(h) => {
             let hv = w(|w| w.handles[hslot(ctx, h)].take());
